@@ -23,6 +23,25 @@ CHECKS = {
         ref="DESIGN.md section 6 C08"),
 }
 
+CHECKS.update({
+    "C05": dict(
+        technique="TLA+ model checking of the RK stage machines over formal states (TLC) + free-algebra execution of the real "
+                  "step() (symbols for the state and for every RHS value) whose realised Butcher tableau TLC judges exactly",
+        text="RK.tla states order conditions up to 4, weight/abscissa conditions, Kraaijevanger's SSP test and stability "
+             "polynomials on an arbitrary tableau in exact rationals; RKStep.tla model checks the three stage machines of the code; "
+             "the real step() of every explicit class is executed on formal symbols, so the tableau read off is valid for every "
+             "right-hand side; TLC evaluates the predicates on it.",
+        ref="DESIGN.md section 6 C05, section 4.2"),
+    "C06": dict(
+        technique="TLA+ model checking of the code-shaped theta/xi implicit step with exact rational linear solves (TLC) + "
+                  "TLC-judged defining relations on the real integrators with operators read from the code's own rhs",
+        text="Implicit.tla models calc_jacobian / calcrhs / solve_implicit / add_res / gear start-up in exact rationals and TLC "
+             "checks the defining relations (backward Euler, Crank-Nicolson, BDF2), conservation, no-growth and FD-Jacobian "
+             "exactness for every small state; the real classes are bound through relation residuals, exact rational amplification "
+             "factors on dyadic z*dt, norm growth and Jacobian-vector products.",
+        ref="DESIGN.md section 6 C06"),
+})
+
 NOT_YET = "check not built yet in this round (work in progress; see DESIGN.md section 6 for the planned TLA+ model and binding)"
 NOT_APPLICABLE = {
     "C04": "asymptotic convergence order against irrational exact solutions over mesh sequences: no finite-state exact-arithmetic "
